@@ -220,7 +220,7 @@ class Unit:
 # ------------------------------------------------------------------------------------------------
 
 def judge(case, recs, pre_records=()):
-    """-> list of (kind, message). kinds: returns, stale, converge, quiet, redo, never-ran, kill."""
+    """-> list of (kind, message). kinds: returns, stale, converge, quiet, redo, never-ran, abort, kill."""
     bad = []
     builds = [r for r in recs if r["step"][0] == "build"]
     prev = None
@@ -246,6 +246,15 @@ def judge(case, recs, pre_records=()):
             continue
         outs = engine.outcomes(obs)
         ex = engine.executed(obs)
+        # exit code 1 must come from a task that really fails: a FAIL report of a task whose body raises (or that sits below one)
+        byid = {t["id"]: t for t in spec["tasks"]}
+        fails = [t for t, o in outs.items() if o == "FAIL"]
+        if obs["exit"] == 1 and not fails:
+            bad.append(("abort", f"a build after the kill ended with exit code 1 without reporting any failed task (reports {outs}): "
+                                 f"the project does not converge"))
+        for t in fails:
+            if t in byid and byid[t].get("beh", "ok") == "ok":
+                bad.append(("abort", f"a build after the kill reports task {t} FAIL although its body does not fail (log {obs.get('log')})"))
         for t, o in outs.items():
             if o == "SKIP_UNCHANGED" and t not in done_before:
                 bad.append(("never-ran", f"task {t} is reported SKIP_UNCHANGED although its body never ran to completion in this project"))
@@ -397,7 +406,7 @@ def replay_model(drv, recs):
 
 
 # ------------------------------------------------------------------------------------------------
-# finding F50: a kill between two row commits of a task + an edit made after the kill
+# corpus witness F50 (fixed by 637627e): a kill around the row commits of a task + an edit made after the kill
 # ------------------------------------------------------------------------------------------------
 
 F50_MODULE = '''from pathlib import Path
@@ -410,40 +419,58 @@ def task_cmp(a=D / "a.txt", b=D / "b.txt", produces=D / "same.txt"):
 
 
 def f50_witness(server) -> dict:
-    """a=b=1, build; a=b=2 (product stays "equal"), rebuild killed right after the FIRST state-row commit; b put back to 1;
-    build. Reproduced = that build reports the task SKIP_UNCHANGED / SUCCESS with same.txt == "equal" although a != b."""
+    """a=b=1, build; a=b=2 (the product stays "equal"); the rebuild is killed before / after EVERY commit of a state row (each in a
+    fresh restore of the project); then b is put back to 1 and the project is built. Oracle: that build must not report the task
+    SKIP_UNCHANGED / SUCCESS with same.txt == "equal" (a != b). With one commit per row the kill after the first row commit
+    fails it; with one transaction per task there is a single commit and nothing fails.
+    Returns {"kills": n, "stale": [ {point, outcome, same.txt} … ]}."""
     root = common.scratch_dir("c05f50")
     clock = project.Clock()
     pts = root / ".verif_points"
+    out = {"kills": 0, "stale": [], "state_commits_in_full_build": 0}
     try:
         project.write_file(root / "task_cmp.py", F50_MODULE, clock)
         project.write_file(root / "a.txt", "1", clock)
         project.write_file(root / "b.txt", "1", clock)
         o1 = server.build(root, {}, env={})
         if o1.get("exit") != 0:
-            return {"reproduced": False, "why": f"first build failed: {o1}"}
+            raise common.InfraError(f"F50 witness: first build failed: {o1}")
         project.write_file(root / "a.txt", "2", clock)
         project.write_file(root / "b.txt", "2", clock)
         backup = Path(str(root) + ".bak")
         shutil.copytree(root, backup)
         try:
             server.build(root, {}, env={"PYTASK_VERIF": "1", "PYTASK_VERIF_POINTS": str(pts)})
-            ks = [n for (n, kind, a) in read_points(pts) if kind == "commit.after" and a == "state"]
-            if len(ks) < 2:
-                return {"reproduced": False, "why": "the rows of a task are committed in fewer than two transactions", "state_commits": len(ks)}
-            restore(root, backup)
-            o2 = server.build(root, {}, env={"PYTASK_VERIF": "1", "PYTASK_VERIF_POINTS": str(pts), "PYTASK_VERIF_CRASH": str(ks[0])})
-            if not o2.get("died"):
-                return {"reproduced": False, "why": "the build was not killed"}
-            pts.unlink(missing_ok=True)
-            project.write_file(root / "b.txt", "1", clock)
-            o3 = server.build(root, {}, env={})
-            outs = [r[1] for r in o3.get("reports", [])]
-            same = (root / "same.txt").read_text() if (root / "same.txt").exists() else None
-            stale = o3.get("exit") == 0 and same == "equal" and outs and outs[0] in ("SKIP_UNCHANGED", "SUCCESS")
-            return {"reproduced": bool(stale), "outcome": outs, "same.txt": same, "a": "2", "b": "1", "killed_after_state_commit": 1,
-                    "state_commits_in_full_build": len(ks)}
+            points = read_points(pts)
+            ks = [(n, kind) for (n, kind, a) in points if kind in ("commit.before", "commit.after") and a == "state"]
+            out["state_commits_in_full_build"] = sum(1 for _, kind in ks if kind == "commit.after")
+            for n, kind in ks:
+                restore(root, backup)
+                o2 = server.build(root, {}, env={"PYTASK_VERIF": "1", "PYTASK_VERIF_POINTS": str(pts), "PYTASK_VERIF_CRASH": str(n)})
+                if not o2.get("died"):
+                    raise common.InfraError("F50 witness: the build was not killed")
+                out["kills"] += 1
+                (root / ".verif_points").unlink(missing_ok=True)
+                c2 = Clock2(clock)
+                project.write_file(root / "b.txt", "1", c2)
+                o3 = server.build(root, {}, env={})
+                outs = [r[1] for r in o3.get("reports", [])]
+                same = (root / "same.txt").read_text() if (root / "same.txt").exists() else None
+                if o3.get("exit") == 0 and same != "differ" and outs and outs[0] in ("SKIP_UNCHANGED", "SUCCESS"):
+                    out["stale"].append({"killed_at_point": n, "kind": kind, "outcome": outs, "same.txt": same, "a": "2", "b": "1"})
+            return out
         finally:
             shutil.rmtree(backup, ignore_errors=True)
     finally:
         shutil.rmtree(root, ignore_errors=True)
+
+
+class Clock2:
+    """continues a Clock beyond the mtimes restored from a backup (edits after a restore must get fresh mtimes)"""
+
+    def __init__(self, clock):
+        self.clock = clock
+
+    def tick(self):
+        self.clock.t += 1000
+        return self.clock.tick()
